@@ -581,6 +581,42 @@ func (db *SpecDB) parseSpecText(text, file, pkgPath string) error {
 				return fail("props outside func")
 			}
 			cur.Props = append(cur.Props, strings.Fields(strings.ReplaceAll(rest, ",", " "))...)
+		case "ensures-split":
+			// ensures-split <selector> <lo> <hi> label: body
+			// expands to one clause per value lo..hi of the selector plus one for all other values,
+			// so that the solver proves each case on its own (together they are the unsplit clause)
+			if cur == nil {
+				return fail("ensures-split outside func")
+			}
+			parts := strings.Fields(rest)
+			if len(parts) < 4 {
+				return fail("ensures-split <selector> <lo> <hi> label: body")
+			}
+			sel := parts[0]
+			var lo, hi int
+			fmt.Sscanf(parts[1], "%d", &lo)
+			fmt.Sscanf(parts[2], "%d", &hi)
+			tail := strings.TrimSpace(rest[strings.Index(rest, parts[2])+len(parts[2]):])
+			ci := strings.Index(tail, ":")
+			if ci <= 0 {
+				return fail("ensures-split needs a label")
+			}
+			label, body := strings.TrimSpace(tail[:ci]), strings.TrimSpace(tail[ci+1:])
+			for k := lo; k <= hi+1; k++ {
+				var src, lab string
+				if k <= hi {
+					src = fmt.Sprintf("%s == %d ==> (%s)", sel, k, body)
+					lab = fmt.Sprintf("%s.%d", label, k)
+				} else {
+					src = fmt.Sprintf("(%s < %d || %s > %d) ==> (%s)", sel, lo, sel, hi, body)
+					lab = label + ".other"
+				}
+				c, err := parseClause(lab+": "+src, file, l.line)
+				if err != nil {
+					return err
+				}
+				cur.Ensures = append(cur.Ensures, c)
+			}
 		case "requires", "needs", "ensures", "assert", "invariant", "decreases":
 			if cur == nil {
 				return fail("%s outside func", kw)
